@@ -228,7 +228,7 @@ re-checks on every run that it is what T4 extracts. Format:
 ``%s-?\s*((?s:.+?))\s*-?%s|%s-?\s*(\w+)(?:\s+((?:%v)+?))?\s*-?%s`` -/
 def stdTokenReSrc : TokenReSrc :=
   { format := [37, 115, 45, 63, 92, 115, 42, 40, 40, 63, 115, 58, 46, 43, 63, 41, 41, 92, 115, 42, 45, 63, 37, 115, 124,
-               37, 115, 45, 63, 92, 115, 42, 40, 92, 119, 43, 41, 40, 63, 58, 92, 115, 43, 40, 40, 63, 58, 37, 118, 41,
+               37, 115, 45, 63, 92, 115, 42, 40, 92, 119, 43, 41, 40, 63, 58, 92, 115, 43, 40, 40, 63, 58, 37, 115, 41,
                43, 63, 41, 41, 63, 92, 115, 42, 45, 63, 37, 115],
     args := [.quote (.delim 0), .quote (.delim 1), .quote (.delim 2), .joinExcl [124], .quote (.delim 3)],
     exclOver := 3,
